@@ -32,9 +32,9 @@ Check ==
       fin == RunSession(InitSession, c.events, 1)
       dv == IF d = 0 THEN TRUE ELSE PrintT(<<"DIVERGE", c.id, "shared-changed", d, c.events[d].ch>>)
   IN /\ dv
-     /\ fin.loaded = { ReqTable[c.events[i].req].arch : i \in DOMAIN c.events }
-     /\ IF b = 0 THEN TRUE
-        ELSE PrintT(<<"REJECT", c.id, "history-dependent", b, c.events[b].req, c.events[b].rep>>)
+     /\ IF b # 0
+          THEN PrintT(<<"REJECT", c.id, "history-dependent", b, c.events[b].req, c.events[b].rep>>)
+          ELSE fin.loaded = { ReqTable[c.events[i].req].arch : i \in DOMAIN c.events }
 TraceInit == tid = 1
 TraceNext == tid < Len(Cases) /\ tid' = tid + 1
 TraceSpec == TraceInit /\ [][TraceNext]_tid
